@@ -6,6 +6,7 @@ import (
 	"fmt"
 	"io"
 	"sync"
+	"sync/atomic"
 	"time"
 
 	"github.com/openconfig/gribigo/server"
@@ -30,6 +31,8 @@ type fakeModify struct {
 	in   chan *spb.ModifyRequest
 	out  chan *spb.ModifyResponse
 	abrt chan struct{}
+	// failSend makes every later Send fail (the transport to the client is gone)
+	failSend atomic.Bool
 }
 
 func (f *fakeModify) Context() context.Context     { return f.ctx }
@@ -37,6 +40,9 @@ func (f *fakeModify) SetHeader(metadata.MD) error  { return nil }
 func (f *fakeModify) SendHeader(metadata.MD) error { return nil }
 func (f *fakeModify) SetTrailer(metadata.MD)       {}
 func (f *fakeModify) Send(m *spb.ModifyResponse) error {
+	if f.failSend.Load() {
+		return status.Error(codes.Unavailable, "transport is closing")
+	}
 	f.out <- m
 	return nil
 }
@@ -249,4 +255,20 @@ func (s *Sess) wait() error {
 	case <-time.After(Watchdog):
 		return fmt.Errorf("HANG: RPC did not return within %v", Watchdog)
 	}
+}
+
+// SendFail simulates a transport failure: the next response cannot be written. A state-neutral
+// operation (the barrier) is sent so that the server has something to answer.
+func (s *Sess) SendFail() error {
+	if !s.Live() {
+		return nil
+	}
+	s.f.failSend.Store(true)
+	id := s.nextBarrier()
+	bar := &spb.ModifyRequest{Operation: []*spb.AFTOperation{{Id: id, NetworkInstance: BarrierNI, Op: spb.AFTOperation_ADD}}}
+	if ok, err := s.push(bar); err != nil || !ok {
+		return err
+	}
+	s.closed = true
+	return s.wait()
 }
